@@ -610,8 +610,10 @@ def literal_eval_extended(item):
         raise
 
 
-def time_to_seconds(t:datetime.time) -> int:
-    return (t.hour * 60 + t.minute) * 60 + t.second
+def time_to_seconds(t:datetime.time) -> Union[int, float]:
+    seconds = (t.hour * 60 + t.minute) * 60 + t.second
+    # keep the microseconds: two times that differ only below the second are different times
+    return seconds + t.microsecond / 1000000 if t.microsecond else seconds
 
 
 def datetime_normalize(
